@@ -64,6 +64,10 @@ SCENARIOS = {
     'disconnect_same_module': dict(scripts={'c1': [('activate', 'm1'), ('disconnect', None)], 'c2': [('activate', 'm1')],
                                             'c3': [('activate', 'm2'), ('ident', None)]},
                                    updaters=[[('m1', 'p2'), ('m2', 'p1'), ('m1', 'p2')]]),
+    # module and parameter scopes survive a whole-node deactivate of the same connection
+    'scopes_survive_global': dict(scripts={'c1': [('activate', 'm1'), ('activate', 'm2:_p1'), ('activate', None), ('deactivate', None)],
+                                           'c2': [('activate', None)]},
+                                  updaters=[[('m1', 'p1'), ('m2', 'p1'), ('m1', 'p2'), ('m2', 'p1')]]),
     'two_scopes': dict(scripts={'c1': [('activate', None), ('activate', P1), ('deactivate', None)]},
                        updaters=[[('m1', 'p1'), ('m1', 'p1')]]),
 }
